@@ -4,6 +4,7 @@ import (
 	"fmt"
 	"go/ast"
 	"go/token"
+	"pigeonverif/internal/variants"
 	"sort"
 	"strings"
 
@@ -151,6 +152,61 @@ func loopOver(fd *ast.FuncDecl, field string) (loop ast.Stmt, elem string, ascen
 	return
 }
 
+// loopOverN is loopOver on the normalised paths of fd: the loop in which the operands <param>.<field>[#d] are handed
+// to the evaluator, whatever the loop form and however the list is named. A loop that the normal form reads as
+// `range <param>.<field>` visits the list in ascending order. elem is the source text of the evaluated operand.
+func loopOverN(c *Ctx, v *variants.Variant, fd *ast.FuncDecl, field string) (loop ast.Stmt, elem string, ascending bool) {
+	param := firstParam(fd)
+	target := param + "." + field
+	nc := c.vnorm(v).without("parseExprWrap", "parseExpr", "restore", "restoreState", "cloneState", "pushV", "popV", "addErr", "addErrAt", "incChoiceAltCnt")
+	for _, p := range nc.normPaths(fd) {
+		var loops []pev
+		for _, e := range p {
+			switch e.Kind {
+			case "loop":
+				loops = append(loops, e)
+			case "endloop":
+				if len(loops) > 0 {
+					loops = loops[:len(loops)-1]
+				}
+			case "call":
+				if !strings.HasPrefix(e.Text, recvName(fd)+".parseExprWrap(") || len(loops) == 0 {
+					continue
+				}
+				d := len(loops)
+				hdr := loops[d-1]
+				st, _ := hdr.Node.(ast.Stmt)
+				if st == nil {
+					continue
+				}
+				ce, _ := e.Node.(*ast.CallExpr)
+				if ce == nil {
+					// the call is the right-hand side of an assignment
+					ast.Inspect(e.Node, func(n ast.Node) bool {
+						if x, ok := n.(*ast.CallExpr); ok && ce == nil && callSel(x) == "parseExprWrap" {
+							ce = x
+						}
+						return true
+					})
+				}
+				if ce != nil && len(ce.Args) == 1 {
+					elem = exprStr(nil, ce.Args[0])
+				}
+				loop = st
+				ascending = hdr.Text == "range "+target && strings.HasSuffix(e.Text, fmt.Sprintf(".parseExprWrap(%s[#%d])", target, d))
+				if !ascending {
+					return
+				}
+			}
+		}
+	}
+	if loop == nil {
+		// fall back to the syntactic recogniser (reports descending loops with their element text)
+		return loopOver(fd, field)
+	}
+	return
+}
+
 func contains(outer ast.Node, pos token.Pos) bool {
 	return outer != nil && outer.Pos() <= pos && pos < outer.End()
 }
@@ -161,7 +217,7 @@ func c01b(c *Ctx, a *absVariant) {
 	// ---- choice
 	if res := a.Res["parseChoiceExpr"]; res != nil {
 		w := a.V.Where(res.Fn.Pos())
-		loop, elem, asc := loopOver(res.Fn, "alternatives")
+		loop, elem, asc := loopOverN(c, a.V, res.Fn, "alternatives")
 		if loop == nil {
 			r.Unk("C01-b", "T.parseChoiceExpr:slice-order", vn, w, "no loop over the alternatives slice recognised (range, or ascending index loop)")
 		} else {
@@ -216,7 +272,7 @@ func c01b(c *Ctx, a *absVariant) {
 	// ---- sequence
 	if res := a.Res["parseSeqExpr"]; res != nil {
 		w := a.V.Where(res.Fn.Pos())
-		loop, elem, asc := loopOver(res.Fn, "exprs")
+		loop, elem, asc := loopOverN(c, a.V, res.Fn, "exprs")
 		if loop == nil {
 			r.Unk("C01-b", "T.parseSeqExpr:slice-order", vn, w, "no loop over the exprs slice recognised")
 		} else {
@@ -506,44 +562,25 @@ func c01dDispatch(c *Ctx, a *absVariant) {
 			continue
 		}
 		param := fd.Type.Params.List[0].Names[0].Name
+		// on the normalised paths (helpers expanded, locals inlined): a rune is folded only where the node's flag is
+		// known to be set
 		nFold, okFold := 0, true
-		var walk func(n ast.Node, guards []string)
-		walk = func(n ast.Node, guards []string) {
-			switch x := n.(type) {
-			case *ast.IfStmt:
-				g := append(append([]string{}, guards...), exprStr(nil, x.Cond))
-				walk(x.Body, g)
-				if x.Else != nil {
-					walk(x.Else, guards)
-				}
-				return
-			case *ast.CallExpr:
-				if callName(x) == "unicode.ToLower" {
+		for _, p := range c.vnorm(a.V).without("read", "restore", "failAt", "sliceFrom", "addErr", "addErrAt").normPaths(fd) {
+			for i, e := range p {
+				if (e.Kind == "call" || e.Kind == "ccall") && strings.HasPrefix(e.Text, "unicode.ToLower(") {
 					nFold++
-					found := false
-					for _, g := range guards {
-						if g == param+"."+fld {
-							found = true
-						}
-					}
-					if !found {
+					if !p[:i].holds(param + "." + fld) {
 						okFold = false
 					}
 				}
 			}
-			ast.Inspect(n, func(m ast.Node) bool {
-				if m == n || m == nil {
-					return true
+			// the flag alone decides: no path leaves it undecided inside a compound condition
+			for _, f := range p.facts() {
+				if strings.Contains(f, param+"."+fld) && f != param+"."+fld && f != "!"+param+"."+fld {
+					okFold = false
 				}
-				switch m.(type) {
-				case *ast.IfStmt, *ast.CallExpr:
-					walk(m, guards)
-					return false
-				}
-				return true
-			})
+			}
 		}
-		walk(fd.Body, nil)
 		r.Check(nFold >= 1 && okFold, "C01-d", "T."+fn+":fold-iff-ignoreCase", vn, a.V.Where(fd.Pos()),
 			fmt.Sprintf("%d folding sites, each under if %s.%s", nFold, param, fld), fmt.Sprintf("%d folding sites, not all guarded by exactly %s.%s", nFold, param, fld))
 	}
